@@ -6,6 +6,7 @@ Relational monitors on real executions: lines of formatter.patch(pt) == (depth, 
 per-command timeout/dialogs == those of the deploy rule chain matching the command path (R7) for generated deploy
 rulebooks; and the production composition CliDeployerJob.parse_result sends what it shows.
 """
+import os
 import random
 import re
 from collections import OrderedDict as odict
@@ -27,7 +28,7 @@ ASSUMPTIONS = [
     "wrapper rules: the first command of a non-empty prefix enters configuration mode; 'commit*' only with do_commit; save/write/copy only with do_finalize",
     "R7 (vf/ref/deploy.py) for rule chains; sibling deploy rules have disjoint languages; no %ifcontext in generated rulebooks",
 ]
-FLOORS = {"quick": {"streams_compared": 3000, "commands_compared": 20000, "exits_seen": 3000, "rule_params_checked": 5000, "nondefault_params": 500, "production_jobs": 200, "cases_with_two_apply_logics": 100, "xpl_patches": 500, "xpl_endif_lines_shown": 500, "production_real_jobs": 12, "regexp_dialogs_checked": 200, "context_rulebooks": 400, "ifcontext_rules_matched": 300, "command_contexts_checked": 8000, "exit_contexts_checked": 2000, "commands_governed_by_one_of_two_same_row_rules": 300, "commands_with_a_prompt_listed_in_two_spellings": 300, "commands_with_a_fractional_timeout": 1000, "commands_with_a_multi_word_answer": 1000},
+FLOORS = {"quick": {"streams_compared": 3000, "commands_compared": 20000, "exits_seen": 3000, "rule_params_checked": 5000, "nondefault_params": 500, "production_jobs": 200, "cases_with_two_apply_logics": 100, "xpl_patches": 500, "xpl_endif_lines_shown": 500, "production_real_jobs": 12, "regexp_dialogs_checked": 200, "context_rulebooks": 400, "ifcontext_rules_matched": 300, "command_contexts_checked": 8000, "exit_contexts_checked": 2000, "commands_governed_by_one_of_two_same_row_rules": 300, "commands_with_a_prompt_listed_in_two_spellings": 300, "commands_with_a_fractional_timeout": 1000, "commands_with_a_multi_word_answer": 1000, "wrapper_command_params_checked": 3000, "provider_instances_served": 8},
           "thorough": {"streams_compared": 90000, "commands_compared": 600000, "exits_seen": 90000, "rule_params_checked": 150000, "nondefault_params": 15000, "production_jobs": 6000, "xpl_patches": 12000, "xpl_endif_lines_shown": 12000, "production_real_jobs": 12}}
 MODELS = {
     "huawei": ["Huawei", "Huawei CE6870", "Huawei NE40E-X8", "Huawei Quidway S5300"],
@@ -298,6 +299,20 @@ def check_stream(pt, model, vname, flags, acc, w, deploy_rules=None, deploy_comp
             if float(c.timeout) != float(et) or gq != eq:
                 acc.violation("C09/wrong-deploy-rule-parameters", "a command does not carry the timeout/dialog answers of the deploy rule chain matching its block path (or the defaults)",
                               dict(w, path=list(p), expected=[et, eq], got=[c.timeout, gq], deploy_rulebook=w.get("deploy_rulebook")))
+                return False
+        # the session wrapper commands (save, commit ...) are commands too: the rule matching them, or the defaults
+        body_set = set(body_idx)
+        for i, c in enumerate(cmds):
+            if i in body_set:
+                continue
+            exp = RDP.find(deploy_rules, (c.cmd,), {})
+            et = exp[1]["timeout"] if exp else 30
+            eq = [((q[1:-1], a, True) if (q.startswith("/") and q.endswith("/")) else (q, a, False)) for q, a in exp[1]["dialogs"]] if exp else []
+            gq = [(q.question, q.answer, bool(q.is_regexp)) for q in (c.questions or [])]
+            acc.count("wrapper_command_params_checked")
+            if c.timeout is None or float(c.timeout) != float(et) or gq != eq:
+                acc.violation("C09/wrong-deploy-rule-parameters", "a command does not carry the timeout/dialog answers of the deploy rule chain matching its block path (or the defaults)",
+                              dict(w, wrapper_command=c.cmd, expected=[et, eq], got=[c.timeout, gq], deploy_rulebook=w.get("deploy_rulebook")))
                 return False
     return True
 
@@ -578,9 +593,55 @@ def check_production(rng, pt, model, vname, acc, w):
         acc.violation("C09/commit-sent-although-disabled", "committing is disabled (dont_commit) but the deploy job sends a commit command", dict(w, model=model, sent=sent[:80]))
 
 
+def check_two_providers(acc):
+    """several rulebook providers in one process (another directory list each, as after a connector reset): each serves the deploy rules of its own
+    directories, also for a hardware model another provider has served before"""
+    import shutil
+    import tempfile
+    import annet.deploy as AD
+    from annet.rulebook import DefaultRulebookProvider
+    from annet.annlib.patching import PatchTree
+    stock = DefaultRulebookProvider.root_dir[0]
+    d = tempfile.mkdtemp(prefix="vf_c09p_")
+    orig = AD.get_rulebook
+    try:
+        texts = []
+        for i, (t1, t2) in enumerate([(41, 42), (51, 52), (61, 62)]):
+            di = os.path.join(d, "site%d" % i, "texts")
+            os.makedirs(di)
+            txt = "sysname *  %%timeout=%d\n    dialog: Q%d sure? ::: Y\ninterface *  %%timeout=%d\n    description ~  %%timeout=%d\n" % (t1, i, t2, t2 + 100)
+            open(os.path.join(di, "huawei.deploy"), "w").write(txt)
+            texts.append((os.path.dirname(di), t1, t2, i))
+        pt = PatchTree()
+        pt.add("sysname a", {})
+        blk = PatchTree()
+        blk.add("description x", {})
+        pt.add_block("interface 10GE1/0/1", blk, {})
+        for model in ("Huawei CE6870", "Huawei NE40E-X8"):
+            hw = hw_of(model)
+            from annet.vendors import registry_connector
+            paths = registry_connector.get().match(hw).make_formatter().cmd_paths(pt)
+            for site, t1, t2, i in texts + texts[:1]:
+                prov = DefaultRulebookProvider(root_dir=(site, stock))
+                AD.get_rulebook = prov.get_rulebook
+                cl = list(AD.apply_deploy_rulebook(hw, paths, do_finalize=False, do_commit=False))
+                got = {c.cmd: (float(c.timeout), [q.question for q in (c.questions or [])]) for c in cl}
+                want = {"sysname a": (float(t1), ["Q%d sure?" % i]), "interface 10GE1/0/1": (float(t2), []), "description x": (float(t2 + 100), [])}
+                acc.count("provider_instances_served")
+                acc.case(["providers", model, i], nontrivial=True)
+                if any(got.get(k) != v_ for k, v_ in want.items()):
+                    acc.violation("C09/deploy-rules-of-another-provider", "a provider built for other rulebook directories hands out the deploy rules an earlier provider compiled for the same hardware",
+                                  {"providers": True, "model": model, "site": i, "expected": {k: list(v_) for k, v_ in want.items()}, "got": {k: list(got.get(k) or []) for k in want}})
+                    return
+    finally:
+        AD.get_rulebook = orig
+        shutil.rmtree(d, ignore_errors=True)
+
+
 def run_corpus(spec, acc):
     from vf import corpus
     check_production_real(acc)
+    check_two_providers(acc)
     from annet.api import _diff_and_patch
     from annet.vendors import registry_connector
     for s in corpus.patch_samples():
@@ -603,7 +664,7 @@ def run_corpus(spec, acc):
 def run_shard(spec, acc):
     if spec["mode"] == "replay":
         w = spec["witness"]
-        if w.get("corpus") or w.get("production_real"):
+        if w.get("corpus") or w.get("production_real") or w.get("providers"):
             run_corpus(spec, acc)
         elif w.get("xpl"):
             check_xpl(w["seed"], acc)
